@@ -100,6 +100,8 @@ STATEMENT_STATUS: Dict[str, str] = {
     "cidcoding_spec": "proved: cidcoding = Registry-Ordering with surrounding white space (str.strip) removed",
     "popall_keywords_tied": "proved: the model's operand-discarding keywords = the popall branches of do_keyword, "
                             "regenerated from cmapdb.py",
+    "unicode_map_from_cidsysteminfo": "proved: from the raw CIDSystemInfo (any surrounding white space) a font without "
+                                      "ToUnicode reads the table Registry-Ordering of its CMap's writing mode",
     "cidcoding_unknown": "proved: missing / ill-typed Registry and Ordering read as unknown-unknown",
     "cidchar_map": "proved (handler level): cid <code> pairs -> cid maps to the UTF-16BE text of the string",
     "cidrange_map": "proved (handler level): <lo> <hi> cid -> cid+i maps to the text of code lo+i (carry form), no "
@@ -2367,6 +2369,59 @@ def coding_case(ctx: C.Ctx, b: "Batch", reg, order) -> None:
                            "K " + want.hex(), got, {"group": "coding"}))
 
 
+def run_umapsel_raw(ctx: C.Ctx) -> None:
+    """CID -> Unicode map choice from the RAW CIDSystemInfo (padded / ill-typed Registry and Ordering): implementation
+    vs model (`fontUnicodeMap`) vs theorem unicode_map_from_cidsysteminfo."""
+    from pdfminer.pdffont import PDFCIDFont
+    from pdfminer.psparser import LIT
+    rng = ctx.rng
+    b = Batch(ctx)
+    shipped = {f[len("to-unicode-"):-10] for f in os.listdir(os.path.join(C.REPO, "pdfminer", "cmap"))
+               if f.startswith("to-unicode-")}
+    white = b" \t\n\r\x0b\x0c\x1c\x1d\x1e\x1f\x85\xa0"
+    pads = [b"", b"", b" ", b"\t", b"\n ", b"\xa0", b"\x85", b"\x1c"]
+    avail = set(all_cmap_names())
+    encs = [e for e in ["Identity-H", "Identity-V", "90ms-RKSJ-V", "90ms-RKSJ-H", "UniGB-UCS2-V", "H", "V"]
+            if e.startswith("Identity") or e in avail]
+    for _ in range(ctx.n(200, 5000)):
+        pick = lambda cores: (rng.choice(pads) + rng.choice(cores) + rng.choice(pads)) if rng.random() < 0.9 \
+            else rng.choice([None, 5, LIT("Adobe")])  # noqa: E731
+        reg = pick([b"Adobe", b"Adobe", b"Adobe", b"Foo", b"adobe"])
+        order = pick([b"Japan1", b"GB1", b"CNS1", b"Korea1", b"Identity", b"UCS", b"Foo", b"Identity X"])
+        enc = rng.choice(encs)
+        tu = rng.choice([None, None, None, "Identity-H", "Foo"])
+        info: Dict[str, Any] = {}
+        if reg is not None:
+            info["Registry"] = reg
+        if order is not None:
+            info["Ordering"] = order
+        spec: Dict[str, Any] = {"Type": LIT("Font"), "Subtype": LIT("CIDFontType2"), "BaseFont": LIT("X"),
+                                "CIDSystemInfo": info, "Encoding": LIT(enc), "FontDescriptor": {}}
+        if tu is not None:
+            spec["ToUnicode"] = LIT(tu)
+        font, e = call(lambda: PDFCIDFont(None, spec))
+        out = describe_umap(font, tu, False) if e is None else exc_line(e)
+        rs = reg.strip(white) if isinstance(reg, bytes) else b"unknown"
+        os_ = order.strip(white) if isinstance(order, bytes) else b"unknown"
+        coding = (rs + b"-" + os_).decode("latin1")
+        vert = enc.endswith("V")
+        inp = {"group": "umapsel_raw", "registry": reg.hex() if isinstance(reg, bytes) else None,
+               "ordering": order.hex() if isinstance(order, bytes) else None, "enc": enc, "tu": tu}
+        ctx.case(("umapsel_raw", json.dumps(inp, sort_keys=True)), True, branch="umapsel_raw:" + out.split(":")[0])
+        w = lambda x: (x.hex() or None) if isinstance(x, bytes) else "-"  # noqa: E731
+        if w(reg) is not None and w(order) is not None:
+            b.tie("umapsel_raw.model", "umapsel2 %s %s %s %s 0 %d %d" % (
+                "-" if tu is None else "n:" + tu.encode().hex(), w(reg), w(order), enc.encode().hex(), vert,
+                coding in shipped), out, inp)
+        if tu is None and coding in shipped:
+            want = "S coll:%s:%s" % (coding, "V" if vert else "H")
+            if out != want:
+                ctx.fail(C.Failure("CID font with a padded CIDSystemInfo does not use the collection table "
+                                   "Registry-Ordering of its CMap's writing mode", inp, want, out,
+                                   {"group": "umapsel_raw", "vertical": vert}))
+    b.flush()
+
+
 def run_fontglue(ctx: C.Ctx) -> None:
     from pdfminer.psparser import LIT
     rng = ctx.rng
@@ -2789,6 +2844,7 @@ def run(ctx: C.Ctx) -> None:
     run_umapsel(ctx)
     run_fontwidth(ctx)
     run_fontglue(ctx)
+    run_umapsel_raw(ctx)
     run_cidsec(ctx)
     run_tubytes(ctx)
     run_ttf(ctx)
